@@ -156,7 +156,9 @@ def rows_str(mols, shuffle_seed=None):
 
 def run_line(sc: Scenario, mode, seeds, rids=None, qids=None, it=1):
     P = sc.P
-    mult = sc.extra_args.get("-sj", 1)
+    from fractions import Fraction
+    mult = Fraction(str(sc.extra_args.get("-sj", 1)))
+    mult = f"{mult.numerator}/{mult.denominator}"
     var = sc.extra_args.get("-ss", 0)
     diff = sc.extra_args.get("-diff", 100000)
     return (f"RUN mode={mode} {gens.pstr(P)} mult={mult} var={var} diff={diff} den=1 it={it} "
@@ -321,3 +323,180 @@ def run_modes_rb(sc, modes, rids=None, qids=None, it=1, do_readback=True):
                         rb[n] = readback(p, os.path.join(d, "r.cmap"), os.path.join(d, "q.cmap"))
             out[mode] = {"real": res, "line": line, "real_out": real_run_output(res), "cands": rc.items, "readback": rb}
     return out
+
+
+def gen_degenerate(rng: random.Random) -> Scenario:
+    """well-formed but degenerate inputs (C07)"""
+    refs = []
+    kind = rng.choice(["mixed", "mixed", "tiny_refs", "all_unalignable", "dups"])
+    nref = rng.randrange(1, 4)
+    for i in range(nref):
+        c = rng.random()
+        if kind == "tiny_refs" and c < 0.6:
+            R = sorted(rng.randrange(0, 50000) for _ in range(rng.choice([1, 1, 2, 3])))
+        else:
+            R = gens.make_reference(rng, rng.randrange(25, 80), 9000, rng.choice([500, 2000]))
+        if kind == "dups" and len(R) > 4:
+            j = rng.randrange(1, len(R) - 1)
+            R = sorted(R + [R[j], R[j]])
+        refs.append((i + 1, R[-1] + 1 + rng.randrange(0, 5000), R))
+    big = [r for r in refs if len(r[2]) > 10]
+    queries = []
+    ids = rng.sample(range(1, 40), rng.randrange(2, 8))
+    for qi in ids:
+        c = rng.randrange(8)
+        if kind == "all_unalignable":
+            c = rng.choice([0, 1, 2, 4])
+        if c == 0:
+            Q = [0]
+        elif c == 1:
+            Q = [0, rng.randrange(1, 30000)]
+        elif c == 2:
+            Q = sorted(rng.randrange(0, 200000) for _ in range(rng.randrange(3, 12)))
+        elif c == 3:
+            Q = [0, 0, 5000, 5000, 12000, 30000, 30000]
+        elif c == 4:
+            Q = gens.rand_map(rng, 400, 9000, 500)   # longer than every reference
+        elif big:
+            Q, _, _ = gens.make_query(rng, rng.choice(big)[2], True)
+            if kind == "dups" and len(Q) > 3:
+                Q = sorted(Q + [Q[1]])
+        else:
+            Q = [0, 4000, 9000, 20000]
+        Q = [q - Q[0] for q in Q]
+        if rng.random() < 0.4:
+            Q = gens.mirror(Q) if len(Q) > 1 else Q
+        off = rng.choice([0, rng.randrange(1, 20000)])
+        queries.append((qi, Q[-1] + off + 1 + rng.randrange(0, 3000), [q + off for q in Q]))
+    extra = {}
+    if rng.random() < 0.6:
+        r1 = rng.choice([1400, 700, 2000, 5000])
+        extra["-r1"] = r1
+        extra["-md"] = rng.choice([r1, 20000, 3 * r1])       # minPeakDistance not below primaryResolution
+        extra["-b1"] = rng.choice([0, 1, 3])
+        extra["-r2"] = rng.choice([100, 50, 400])
+        extra["-b2"] = rng.choice([0, 4, 8])
+        extra["-ma"] = rng.choice([16000, 2000, 40000])
+        extra["-pt"] = rng.choice([27, 5, 60])
+        extra["-p"] = rng.choice([1, 3, 6])
+        extra["-diff"] = rng.choice([0, 100000])
+    P = dict(gens.DEFAULT_P)
+    if rng.random() < 0.4:
+        P.update({"md": rng.choice([0, 300, 1500, 6000]), "ms": rng.choice([1, 1000, 5000]), "bs": rng.choice([0, 1200]),
+                  "su": rng.choice([0, -250, -2000]), "dp": rng.choice([0, 1, 3])})
+    return Scenario(refs, queries, P, extra, rng.randrange(1 << 30) if rng.random() < 0.5 else None, "degenerate:" + kind)
+
+
+def run_cli(sc: Scenario, mode, workdir, cpus=2, tag="cli", extra_argv=None):
+    """the real command line (`python -m src.program`) in a subprocess"""
+    import subprocess
+    rpath, qpath = os.path.join(workdir, "r.cmap"), os.path.join(workdir, "q.cmap")
+    if not os.path.exists(rpath):
+        rng = random.Random(sc.shuffle_seed) if sc.shuffle_seed is not None else None
+        cmapio.write_cmap(rpath, sc.refs, rng)
+        cmapio.write_cmap(qpath, sc.queries, rng)
+    opath = os.path.join(workdir, f"{tag}_{mode}_{cpus}.xmap")
+    argv = cli_args(sc, rpath, qpath, opath, mode, cpus) + list(extra_argv or [])
+    p = subprocess.run(["/venv/bin/python", "-m", "src.program"] + argv, cwd="/repo", capture_output=True, text=True,
+                       timeout=600)
+    base, ext = os.path.splitext(opath)
+    files = {}
+    for n, pth in [(0, opath), (1, f"{base}_1{ext}"), (2, f"{base}_2{ext}")]:
+        if os.path.exists(pth):
+            files[n] = open(pth).read()
+    return {"rc": p.returncode, "stderr": p.stderr[-1500:], "files": files, "argv": argv}
+
+
+def strip_volatile(text):
+    """drop the two header lines that echo host name and arguments"""
+    return "\n".join(l for l in text.split("\n") if not l.startswith("# hostname=") and not l.startswith("# coma "))
+
+
+from src.extensions.messages import InitialAlignmentMessage  # noqa: E402
+
+
+class Sleeper(Extension):
+    """perturbs the completion order of the per-query workers (runs inside the workers)"""
+    messageType = InitialAlignmentMessage
+
+    def __init__(self, seed, max_ms=30):
+        self.seed = seed
+        self.max_ms = max_ms
+
+    def handle(self, message):
+        import time
+        import zlib
+        q = message.data.query
+        h = zlib.crc32(f"{self.seed}:{int(q.moleculeId)}:{len(q.positions)}".encode())
+        time.sleep((h % (self.max_ms + 1)) / 1000.0)
+
+
+def gen_c06(rng: random.Random, nq=8):
+    """the domain of C06: one reference, label spacing >= 2 kb (mean >= 9 kb); queries are exact
+    copies of interior windows of 15-45 labels at least 4 labels from either end, either strand,
+    any coordinate offset and trailing length"""
+    n = rng.randrange(80, 200)
+    R = gens.rand_map(rng, n, rng.choice([9000, 9500, 12000, 20000]), 2000)
+    ref = (1, R[-1] + 1 + rng.randrange(0, 30000), R)
+    queries, truth = [], {}
+    ids = rng.sample(range(1, 500), nq)
+    for qi in ids:
+        k = rng.randrange(15, 46)
+        i = rng.randrange(4, n - k - 4 + 1)
+        win = R[i:i + k]
+        Q = [p - win[0] for p in win]
+        rev = rng.random() < 0.5
+        if rev:
+            Q = gens.mirror(Q)
+        off = rng.choice([0, rng.randrange(1, 80000)])
+        trailing = rng.choice([0, rng.randrange(1, 40000)])
+        queries.append((qi, Q[-1] + off + 1 + trailing, [q + off for q in Q]))
+        if not rev:
+            pairs = [(i + 1 + j, j + 1) for j in range(k)]
+        else:
+            pairs = [(i + 1 + j, k - j) for j in range(k)]
+        truth[qi] = {"ref": 1, "rev": rev, "pairs": pairs, "offset": win[0], "k": k}
+    return Scenario([ref], queries, dict(gens.DEFAULT_P), {}, rng.randrange(1 << 30) if rng.random() < 0.3 else None, "c06"), truth
+
+
+def gen_c11(rng: random.Random, nq=6):
+    """lattice inputs for C11: all coordinates multiples of both resolutions; maxPairDistance below
+    half the lattice step"""
+    unit = rng.choice([4200, 4200, 2800, 5600])
+    md = rng.choice([1000, 1300, unit // 2 - 100])
+    nref = rng.randrange(1, 3)
+    refs = []
+    for i in range(nref):
+        n = rng.randrange(40, 120)
+        cells = sorted(rng.sample(range(0, 4 * n), n))
+        refs.append((i + 1, cells[-1] * unit + 1 + unit * rng.randrange(0, 3), [c * unit for c in cells]))
+    queries = []
+    for qi in rng.sample(range(1, 90), nq):
+        R = rng.choice(refs)[2]
+        k = rng.randrange(8, 35)
+        i = rng.randrange(0, len(R) - k)
+        win = [p - R[i] for p in R[i:i + k]]
+        if rng.random() < 0.6:   # noisy on the lattice: missing / extra labels, a lattice indel
+            win = [p for p in win if rng.random() < 0.9]
+            if rng.random() < 0.4 and len(win) > 6:
+                c = rng.randrange(2, len(win) - 2)
+                d = rng.choice([-2, 1, 3]) * unit
+                win = win[:c] + [p + d for p in win[c:]]
+            for _ in range(rng.randrange(0, 3)):
+                win.append(rng.randrange(0, max(1, win[-1] // unit + 1)) * unit)
+            win = sorted(set(p for p in win if p >= 0))
+        if len(win) < 3:
+            win = [0, unit, 3 * unit]
+        win = [p - win[0] for p in win]
+        if rng.random() < 0.5:
+            win = gens.mirror(win)
+            win = [p - win[0] for p in win]
+        queries.append((qi, win[-1] + 1, win))
+    P = dict(gens.DEFAULT_P, md=md)
+    extra = {}
+    if rng.random() < 0.5:
+        extra["-sj"] = rng.choice([1, 0.5, 0.1, 0])
+        extra["-ss"] = rng.choice([0, 1])
+    sc = Scenario(refs, queries, P, extra, None, "c11")
+    mir = Scenario(refs, [(qi, ln, [ps[-1] - p for p in reversed(ps)]) for qi, ln, ps in queries], P, extra, None, "c11-mirror")
+    return sc, mir
